@@ -696,6 +696,7 @@ func blockContainsAccounts(block *old_faithful_grpc.BlockResponse, accounts []st
 		meta, err := solanatxmetaparsers.ParseTransactionStatusMetaContainer(tx.Meta)
 		if err != nil {
 			klog.Errorf("Failed to parse transaction meta: %v", err)
+			continue
 		}
 
 		loadedAccounts := meta.GetLoadedAccounts()
@@ -767,6 +768,18 @@ func (multi *MultiEpoch) processSlotTransactions(
 	gsfaReader *gsfa.GsfaReaderMultiepoch,
 	gsfaReadersLoaded bool,
 ) error {
+
+	if filter != nil {
+		// account strings come from the client: reject malformed ones instead of panicking in
+		// MustPublicKeyFromBase58 below.
+		for _, accounts := range [][]string{filter.AccountInclude, filter.AccountExclude, filter.AccountRequired} {
+			for _, acc := range accounts {
+				if _, err := solana.PublicKeyFromBase58(acc); err != nil {
+					return status.Errorf(codes.InvalidArgument, "invalid account %q in filter: %v", acc, err)
+				}
+			}
+		}
+	}
 
 	filterOutTxn := func(tx solana.Transaction, meta any) bool {
 		if filter == nil {
